@@ -12,6 +12,7 @@
 //	T  id sizes uniform chunkOffsets                                  (sample table view of the current file)
 //	S  id valid a b workLen oracle chunks memCopySamples lazyCopySamples   (chunks = GetContainingChunks output nr:start:n;...)
 //	W  id filehex zeof oracle tops memTop lazyTop                     (DecodeFile top-level view; tops = layout as built or -)
+//	Q / V: EncodeSW on a FixedSliceWriter, see sw.go
 package main
 
 import (
@@ -337,6 +338,7 @@ func corr(seed uint64, n, exh int) {
 			continue
 		}
 		emitEncode(mm, ml)
+		emitEncodeSW(i, mm, ml)
 		pstart := int64(mf.startPos + 8)
 		if mf.large {
 			pstart += 8
@@ -417,6 +419,7 @@ func corr(seed uint64, n, exh int) {
 	corrEncodeFile(rng, n/2+2)
 	corrInter(rng, n/3+2)
 	corrSparse(rng, n/4+2)
+	corrEncodeFileSW(rng, n/2+2)
 }
 
 // ---------------------------------------------------------------- search: the property itself
@@ -456,6 +459,7 @@ func search(seed uint64, n, exh int) {
 		if ml.Size() != mm.Size() || ml.StartPos != mm.StartPos || ml.HeaderSize() != mm.HeaderSize() || ml.Size() != uint64(len(box)) {
 			fail("MdatBox.Size", "size-differs", fmt.Sprintf("file=%s startPos=%d", hx.Hex(mf.file), mf.startPos), "Size/StartPos/HeaderSize differ between the modes")
 		}
+		searchMdatSW(mf, box, plen, mm, ml)
 		pstart := int64(mf.startPos + len(box) - plen)
 		check := func(start, size int64) {
 			orc := genOracle(rng)
@@ -516,6 +520,7 @@ func search(seed uint64, n, exh int) {
 	searchLazyWriter(rng, n/2+5)
 	searchInter(rng, n/2+5)
 	searchSparse(rng, n/4+3)
+	searchEncodeFileSW(rng, n/2+5)
 	fmt.Fprintf(out, "EVALS\t%d\n", evals)
 }
 
